@@ -36,6 +36,11 @@ func receiveLemma(p string, eventsMayFail bool) { receiveLemmaN(p, eventsMayFail
 // receiveLemmaN: sigs bounds attesters and signatures; before >= 0 first lets a DIFFERENT keeper
 // instance successfully execute transaction `before` on an arbitrary other state in the same process.
 func receiveLemmaN(p string, eventsMayFail bool, sigs int, before int) {
+	receiveLemmaFull(p, eventsMayFail, sigs, before, nil)
+}
+
+// receiveLemmaFull: pre as in producerLemmaFull.
+func receiveLemmaFull(p string, eventsMayFail bool, sigs int, before int, pre func(h *H)) {
 	if before >= 0 {
 		a := c18exec(before, "other_", "other_")
 		verifrt.Assume(a.ok)
@@ -49,6 +54,9 @@ func receiveLemmaN(p string, eventsMayFail bool, sigs int, before int) {
 	h.setupUserState(sigs, c)
 	h.assumeThresholdInvariant()
 	verifrt.Assume(asciiStr(h.PairLocal))
+	if pre != nil {
+		pre(h)
+	}
 	h.Env.EventsMayFail(eventsMayFail)
 	h.Env.FTF.MayPanic = p == "C14" // a failing mint may return an error or panic
 	h.Env.BeginTx()
